@@ -371,6 +371,37 @@ func c15(c *wk.Ctx) {
 		}
 		idx++
 	}
+	// counts whose product with an element or header size wraps around 2^32 (or 2^31) to something small: a bound
+	// computed in 32-bit arithmetic lets them through
+	for _, cnt := range c15wrapCounts {
+		if c.Mine(idx) {
+			c.Begin(idx, fmt.Sprintf("wrapping count %#x", cnt))
+			// msg_container with one well-formed item behind the count
+			in := append(le32(0x73f1f8dc), le32(cnt)...)
+			in = append(in, le64(5)...)
+			in = append(in, le32(1)...)
+			in = append(in, le32(20)...)
+			in = append(in, le32(0x347773c5)...)
+			in = append(in, le64(1)...)
+			in = append(in, le64(2)...)
+			m.call(idx, in, "DecodeUnknownObject", "wrapping-count-container", func() error { _, e := tl.DecodeUnknownObject(in); return e })
+			// a vector with that count, alone and as an rpc_result, under every prediction
+			v := append(le32(0x1cb5c415), le32(cnt)...)
+			v = append(v, make([]byte, 64)...)
+			rr := append(append(le32(0xf35c6d01), le64(9)...), v...)
+			for h := 1; h < len(c15Hints); h++ {
+				m.call(idx, v, "DecodeUnknownObject+hints", "wrapping-count-vector", func() error { _, e := tl.DecodeUnknownObject(v, c15Hints[h]...); return e })
+				m.call(idx, rr, "DecodeUnknownObject+hints", "wrapping-count-vector", func() error { _, e := tl.DecodeUnknownObject(rr, c15Hints[h]...); return e })
+			}
+			// future_salts: a bare vector inside a service object
+			fs := append(append(le32(0xae500895), le64(1)...), le32(2)...)
+			fs = append(fs, le32(cnt)...)
+			fs = append(fs, make([]byte, 48)...)
+			m.call(idx, fs, "DecodeUnknownObject", "wrapping-count-bare-vector", func() error { _, e := tl.DecodeUnknownObject(fs); return e })
+			c.Distinct("wrapping-count", cnt)
+		}
+		idx++
+	}
 	// many small objects in one input (what a busy server sends): cost must stay proportional to the input, not to
 	// the input times the number of objects in it
 	for _, n := range []int{2000, c.Pick(8000, 60000)} {
@@ -433,6 +464,24 @@ func c15(c *wk.Ctx) {
 		idx++
 	}
 }
+
+// c15wrapCounts: k*2^28+j, k*2^29+j, k*2^30+j and ceil(2^32/size)+j for the element and header sizes in use.
+var c15wrapCounts = func() []uint32 {
+	var out []uint32
+	for _, sh := range []uint{28, 29, 30, 31} {
+		for k := uint32(1); k < 4 && uint64(k)<<sh < 1<<32; k++ {
+			for j := uint32(0); j < 3; j++ {
+				out = append(out, k<<sh+j)
+			}
+		}
+	}
+	for _, size := range []uint64{4, 8, 12, 16, 20, 24, 32} {
+		for j := uint64(0); j < 3; j++ {
+			out = append(out, uint32((1<<32)/size+1+j), uint32((1<<31)/size+1+j))
+		}
+	}
+	return out
+}()
 
 func c15cold(c *wk.Ctx, idx int) {
 	if err := loadSchemas(); err != nil {
@@ -542,6 +591,7 @@ func c15seed(c *wk.Ctx, m *c15mon, idx int, r *rand.Rand, t reflect.Type, seed [
 			{"vector-id", 0x1cb5c415}, {"bool", 0x997275b5}, {"bool", 0xbc799737}, {"null", 0x56730bcc}, {"gzip-id", 0x3072cfa1}, {"container-id", 0x73f1f8dc},
 			{"rpc_result-id", 0xf35c6d01}, {"zero", 0}, {"one", 1}, {"minus1", 0xffffffff}, {"maxint", 0x7fffffff}, {"minint", 0x80000000}, {"fe-header", 0xfffffffe},
 			{"fe-len", 0x00fffffe}, {"big-count", 0x10000000}, {"count-64k", 0x00010000}, {"flags-all", 0xffffffff},
+			{"wrapping-count", c15wrapCounts[r.Intn(len(c15wrapCounts))]}, {"wrapping-count", c15wrapCounts[r.Intn(len(c15wrapCounts))]},
 		}
 	}
 	for wi := 0; wi < words; wi++ {
